@@ -66,30 +66,52 @@ func c04types(thorough bool) []gen.TypeCase {
 
 // extra hand-made values: cyclic and very deep data
 type c04extra struct {
-	name string
-	mk   func() interface{}
+	name  string
+	mk    func() interface{}
+	typed bool // mk returns plain data: the round trip is checked too
+}
+
+// long strings dense with characters that need escaping: the restartable native routines
+// (HTML escape, quote) must grow their destination several times within one call
+func c04longStrings() []c04extra {
+	var l []c04extra
+	for _, n := range []int{70, 1400, 9000, 40000} {
+		for _, unit := range []string{"<", "&>", "\"", "a<", "\u2028", "\x00\"<"} {
+			n, unit := n, unit
+			s := strings.Repeat(unit, n/len(unit)+1)
+			l = append(l, c04extra{fmt.Sprintf("long-string(%d x %q)", n, unit), func() interface{} { return s }, true})
+			l = append(l, c04extra{fmt.Sprintf("long-string-in-struct(%d x %q)", n, unit), func() interface{} {
+				return struct {
+					A int
+					S []string
+					M map[string]string
+				}{7, []string{"x", s}, map[string]string{s[:n/2]: s}}
+			}, true})
+		}
+	}
+	return l
 }
 
 func c04extras() []c04extra {
-	return []c04extra{
-		{"cyclic-pointer", func() interface{} { r := &gen.Rec{V: 1}; r.Next = r; return r }},
-		{"cyclic-map", func() interface{} { m := map[string]interface{}{}; m["self"] = m; return m }},
-		{"cyclic-slice", func() interface{} { s := make([]interface{}, 1); s[0] = s; return s }},
+	return append(c04longStrings(), []c04extra{
+		{"cyclic-pointer", func() interface{} { r := &gen.Rec{V: 1}; r.Next = r; return r }, false},
+		{"cyclic-map", func() interface{} { m := map[string]interface{}{}; m["self"] = m; return m }, false},
+		{"cyclic-slice", func() interface{} { s := make([]interface{}, 1); s[0] = s; return s }, false},
 		{"deep-chain-5000", func() interface{} {
 			var head *gen.Rec
 			for i := 0; i < 5000; i++ {
 				head = &gen.Rec{V: i, Next: head}
 			}
 			return head
-		}},
+		}, false},
 		{"deep-slices-5000", func() interface{} {
 			var v interface{} = 1
 			for i := 0; i < 5000; i++ {
 				v = []interface{}{v}
 			}
 			return v
-		}},
-	}
+		}, false},
+	}...)
 }
 
 // plainData reports whether values of t round-trip through JSON by construction.
@@ -502,7 +524,14 @@ func encOptSuite(c *ev.Ctx, thorough bool, f func(cs c04case, t reflect.Type, rv
 		}
 		for o := 0; o < 512; o++ {
 			cs := c04case{thorough, -1, xi, false, o, x.name, encOptString(o), x.name}
-			if !f(cs, nil, reflect.Value{}, x.mk()) {
+			v := x.mk()
+			if x.typed {
+				if !f(cs, reflect.TypeOf(v), reflect.ValueOf(v), v) {
+					return
+				}
+				continue
+			}
+			if !f(cs, nil, reflect.Value{}, v) {
 				return
 			}
 		}
@@ -549,7 +578,11 @@ func init() {
 				if cs.VI >= len(xs) {
 					return nil
 				}
-				return c04judge(cs, nil, reflect.Value{}, xs[cs.VI].mk())
+				v := xs[cs.VI].mk()
+				if xs[cs.VI].typed {
+					return c04judge(cs, reflect.TypeOf(v), reflect.ValueOf(v), v)
+				}
+				return c04judge(cs, nil, reflect.Value{}, v)
 			}
 			types := c04types(cs.Thorough)
 			if cs.TI >= len(types) {
